@@ -396,7 +396,15 @@ func (q *Queue) tryDelivery(meta *QueueMetadata, header textproto.Header, body b
 	// and recipients DSN will be generated for.
 	newRcpts := make([]string, 0, len(partialErr.Errs))
 	failedRcpts := make([]string, 0, len(partialErr.Errs))
+	seenRcpts := make(map[string]struct{}, len(meta.To))
 	for _, rcpt := range meta.To {
+		// An address listed twice in the envelope is one recipient: it is
+		// counted, reported and re-queued once per attempt.
+		if _, dup := seenRcpts[rcpt]; dup {
+			continue
+		}
+		seenRcpts[rcpt] = struct{}{}
+
 		rcptErr, ok := partialErr.Errs[rcpt]
 		if !ok {
 			dl.Msg("delivered", "rcpt", rcpt, "attempt", meta.TriesCount[rcpt]+1)
